@@ -143,7 +143,7 @@ class FileProxy:
         raise AttributeError("C23 harness: unexpected file method %s" % name)
 
 
-def instrumented_run(c, target, k, after):
+def instrumented_run(c, target, k, after, c_file=None):
     """runs in the child (or in-process for the clean run when k is None)"""
     crash = Crash(target, k, after)
     real_open, real_rename, real_unlink = builtins.open, os.rename, os.unlink
@@ -167,7 +167,7 @@ def instrumented_run(c, target, k, after):
             # what emit_c_code / emit_python_code do (api.py:679), keeping recompile()'s `updated` result
             from cffi.recompiler import recompile
             module_name, source, source_extension, kwds = ffi._assigned_source
-            res = recompile(ffi, module_name, source, c_file=target, call_c_compiler=False,
+            res = recompile(ffi, module_name, source, c_file=c_file or target, call_c_compiler=False,
                             uses_ffiplatform=False, **kwds)
             res = {"value": res[1]}
         except BaseException as e:
@@ -236,6 +236,13 @@ def do_write(c, idx):
     after = read_bytes(target)
     out["final"] = "new" if after == newb else "old" if after == oldb else "other"
     out["leftovers"] = sorted(fn for fn in os.listdir(work) if os.path.join(work, fn) != target)
+    # the file-like branch (recompiler.py:1440-1442) with the path target left as it is: Model.make_source says no
+    # I/O call on the path, result True, and the text that the path run has just compared / written
+    sio = io.StringIO()
+    st1, b1 = stat(), read_bytes(target)
+    logf, resf = instrumented_run(c, target, None, False, c_file=sio)
+    out["filelike"] = dict(ops=[e[0] for e in logf], result=resf, same_text=sio.getvalue() == new,
+                           target_untouched=(stat(), read_bytes(target)) == (st1, b1))
     # a second regeneration right after must find the file up to date
     log2, res2 = instrumented_run(c, target, None, False)
     out["second"] = dict(result=res2, ops=[e[0] for e in log2])
